@@ -374,11 +374,19 @@ func GenProgram(r *Rng, prop string, cfg Config, gp GenParams) *Program {
 			switch {
 			case x < 5:
 				s := Step{K: "merge", A: mergeKind()}
-				if gp.Park && r.Chance(1, 5) {
+				if gp.Park && r.Chance(1, 3) {
 					s.P = mergerParks[r.Intn(len(mergerParks))]
 					add(s)
 					add(Step{K: "check"})
-					if r.Chance(1, 2) {
+					// cross pattern: a whole persister round (and maybe a
+					// batch) while the merger is parked in mid-cycle
+					if lower && !gp.NoPersistSteps && r.Chance(1, 2) {
+						add(Step{K: "persist"})
+						if r.Chance(1, 3) {
+							add(Step{K: "batch", B: g.batch()})
+						}
+					}
+					if r.Chance(2, 3) {
 						add(Step{K: "resume", A: "merger"})
 					}
 				} else {
@@ -389,7 +397,7 @@ func GenProgram(r *Rng, prop string, cfg Config, gp GenParams) *Program {
 					continue
 				}
 				s := Step{K: "persist"}
-				if gp.Park && r.Chance(1, 4) {
+				if gp.Park && r.Chance(1, 3) {
 					if store {
 						s.P = persisterParks[r.Intn(len(persisterParks))]
 					} else {
@@ -397,6 +405,15 @@ func GenProgram(r *Rng, prop string, cfg Config, gp GenParams) *Program {
 					}
 					add(s)
 					add(Step{K: "check"})
+					// cross pattern: a batch and a whole merger cycle while the
+					// persister is parked in mid-round
+					if r.Chance(1, 2) {
+						if r.Chance(1, 2) {
+							add(Step{K: "batch", B: g.batch()})
+						}
+						add(Step{K: "merge", A: mergeKind()})
+						add(Step{K: "check"})
+					}
 					if r.Chance(2, 3) {
 						add(Step{K: "resume", A: "persister"})
 					}
